@@ -161,7 +161,7 @@ def striped_array_mean(local_array):
     global_len = mpi.comm.allreduce(local_len, op=mpi.mpi4py.SUM)
 
     assert global_len >= 0
-    assert global_sum >= local_sum
+    assert global_len >= local_len
 
     return global_sum / global_len
 
